@@ -114,6 +114,18 @@ Theorem C07_classes_distinct_after_rename : forall p k names,
 Proof. exact classes_distinct_after_rename. Qed.
 Print Assumptions C07_classes_distinct_after_rename.
 
+(* RenameDuplicateClasses.add_numeric_suffix: the renamed class gets a comparison key (slug of the
+   name, or of the qualified name when classes are compared by qualified name) that no class had
+   before, and the reserved set keeps covering every class *)
+Theorem C07_numeric_suffix_fresh : forall u l res p,
+  (p < List.length l)%nat -> res_ok u l res ->
+  let st' := add_numeric_suffix u (l, res) p in
+  ~ In (c_cmp u (cget (fst st') p)) (map (c_cmp u) l) /\
+  (forall i, i <> p -> cget (fst st') i = cget l i) /\
+  res_ok u (fst st') (snd st').
+Proof. exact numeric_suffix_fresh. Qed.
+Print Assumptions C07_numeric_suffix_fresh.
+
 Theorem C07_classes_distinct_reserved_suffix_refuted :
   ~ NoDup (class_names_of [cl "None" false; cl "NoneType" false]).
 Proof. exact classes_distinct_reserved_suffix_refuted. Qed.
